@@ -35,5 +35,38 @@ long int strtol(const char *s, char **on, int base)
 	if (on != NULL) *on = (char*)(s + (i == d0 ? 0 : i));
 	return neg ? -r : r;
 }
+
+#if defined WORD_MEMOPS
+/* word-wise memcpy/memmove/memset: CBMC's built-in models go through byte
+ * arrays of symbolic size (array theory), which exhausts memory on the bitint
+ * containers; every use in the encoded code is on 4-byte aligned int32/uint32
+ * arrays with sizes that are multiples of 4, for which these are exact. */
+#include <stdint.h>
+void *memcpy(void *d, const void *s, size_t n)
+{
+	uint32_t *dd = d;
+	const uint32_t *ss = s;
+	__CPROVER_assert(n % 4U == 0U, "CHECK word-wise memcpy model applies");
+	for (size_t i = 0; i < n / 4U; i++) dd[i] = ss[i];
+	return d;
+}
+void *memmove(void *d, const void *s, size_t n)
+{
+	uint32_t *dd = d;
+	const uint32_t *ss = s;
+	uint32_t tmp[32];
+	__CPROVER_assert(n % 4U == 0U && n / 4U <= 32U, "CHECK word-wise memmove model applies");
+	for (size_t i = 0; i < n / 4U && i < 32U; i++) tmp[i] = ss[i];
+	for (size_t i = 0; i < n / 4U && i < 32U; i++) dd[i] = tmp[i];
+	return d;
+}
+void *memset(void *d, int c, size_t n)
+{
+	uint32_t *dd = d;
+	__CPROVER_assert(n % 4U == 0U && c == 0, "CHECK word-wise memset model applies");
+	for (size_t i = 0; i < n / 4U; i++) dd[i] = 0U;
+	return d;
+}
+#endif
 #endif
 #endif
